@@ -427,7 +427,7 @@ def sig_c20(ev):
 PLANS["C20"] = dict(
     run=run_c20, signature=sig_c20,
     technique="TLA+ dispatch table and collection laws over result values; TLC emits the bounded shape set, the harness calls every generic entry point, its kind-specific counterpart and the members, and TLC validates totality, agreement, the collection law and read-only-ness per event",
-    level_text="For every shape of the TLC-generated bounded set (nine kinds + nil interface, nil/empty slices, zero-ring polygons in multipolygons, zero-vertex rings in polygons, one-vertex lines, collections nested to depth 2) and seeded rectilinear degenerate-rich shapes, each of 22 generic entry points (Clone, Round, planar Area/CentroidArea/Length/DistanceFrom(WithIndex), geo Area/Length/LengthHaversine, clip, smartclip, project, three simplifiers, tilecover, wkb/ewkb/wkt Marshal, geojson geometry and feature) is called under recover; TLC requires: no panic, result = the kind-specific function's result, a collection's result = the law of the table applied to its members' results (map / sum / min / filter-unwrap / union), and the argument unchanged for the read-only entry points. Read-only entry points receive a copy whose every slice has spare capacity filled with sentinels: the argument and the sentinels must be untouched (clip.Geometry on a MultiPoint counts as read-only, as documented). Seeded multi-part geometries pair a zig-zag part (a simplifier keeps everything) with a straight part full of redundant vertices: parts must not influence each other. Seeded collections also hold nil members (skipped by every entry point).",
+    level_text="For every shape of the TLC-generated bounded set (nine kinds + nil interface, nil/empty slices, zero-ring polygons in multipolygons, zero-vertex rings in polygons, one-vertex lines, collections nested to depth 2) and seeded rectilinear degenerate-rich shapes, each of 22 generic entry points (Clone, Round, planar Area/CentroidArea/Length/DistanceFrom(WithIndex), geo Area/Length/LengthHaversine, clip, smartclip, project, three simplifiers, tilecover, wkb/ewkb/wkt Marshal, geojson geometry and feature) is called under recover; TLC requires: no panic, result = the kind-specific function's result, a collection's result = the law of the table applied to its members' results (map / sum / min / filter-unwrap / union), and the argument unchanged for the read-only entry points. Read-only entry points receive a copy whose every slice has spare capacity filled with sentinels: the argument and the sentinels must be untouched (clip.Geometry on a MultiPoint counts as read-only, as documented). Seeded multi-part geometries pair a zig-zag part (a simplifier keeps everything) with a straight part full of redundant vertices: parts must not influence each other. Seeded collections also hold nil members (skipped by every entry point). The generic clip appears twice in the table: against a box that cuts the shapes and against one that holds all of them (nothing to cut, and still the typed answer: empty members dropped).",
     level_note="The 'programs' half of the quantifier (every type switch in the source names all nine kinds) is a static property of source text and is not decided here; a switch that misses a kind is seen only through an entry point in the table. Float-valued results that are not exact on the integer lattice (geodesic measures, diagonal lengths) are compared for generic = typed by bit pattern but take no part in the arithmetic laws. Trusted: TLC, Json module, sha1 for byte/text results.",
     rule="one event = one entry point applied to one shape (generic result, typed result, member results, argument after the call); non-trivial = non-nil shape; distinct = distinct event text",
     assumptions=["panics are recovered and recorded with the innermost orb function on the stack as the site"],
@@ -474,7 +474,7 @@ def run_c14(ctx):
 PLANS["C14"] = dict(
     run=run_c14, signature=sig_default,
     technique="TLA+ exact Must/May tile sets and sample-point polygon predicate in tile-space lattice units, MergeUp as a state machine with nondeterministic map order checked against MaxMerge; traces of the real tilecover functions validated by TLC",
-    level_text="TLC explores the MergeUp loop with every possible map iteration order for all 65536 zoom-2 tile sets x min in 0..2 (thorough; 384 structured sets quick) and checks result = MaxMerge, disjointness, equal area, no complete sibling quad left and no tile shallower than min. For real covers the harness places lattice paths and star-shaped polygons (with holes) in tile space at zooms 3..22, inverts them to lon/lat, checks with maptile.Fraction that the code sees the lattice point within 1e-6 tile, and records the cover; TLC requires Must <= cover <= May for lines (exact segment/rectangle tests with a 1/64-tile margin, so either choice at an exact corner crossing is accepted), sample-point and boundary tiles in the cover and the cover inside the bounding box for polygons, the tile itself for points, the union for collections, and MergeUp = MaxMerge on every repetition for tile sets at zoom 2 and 4. Also: polygons of up to 8x8 tiles with a small hole somewhere inside (a hole within one tile row), vertices repeated in a row incl. a doubled closing vertex, windows across the equator (the one tile-row edge with an exact latitude: vertices exactly on a row edge), windows starting at tile (0,0) and whole-world windows at zooms 0..2. Model-checked layer for lines: the grid walk of tilecover.line() transcribed in exact arithmetic satisfies Must <= walk <= May for every segment between lattice points of a 3x3 window. Also: multipolygons whose members overlap or nest (the cover is the union), tilecover.Bound on the 1/8192 lattice with corners a hair away from tile edges at zooms to 22, MergeUp on a reused map still holding false-valued keys of another zoom, points at zooms 0..2.",
+    level_text="TLC explores the MergeUp loop with every possible map iteration order for all 65536 zoom-2 tile sets x min in 0..2 (thorough; 384 structured sets quick) and checks result = MaxMerge, disjointness, equal area, no complete sibling quad left and no tile shallower than min. For real covers the harness places lattice paths and star-shaped polygons (with holes) in tile space at zooms 3..22, inverts them to lon/lat, checks with maptile.Fraction that the code sees the lattice point within 1e-6 tile, and records the cover; TLC requires Must <= cover <= May for lines (exact segment/rectangle tests with a 1/64-tile margin, so either choice at an exact corner crossing is accepted), sample-point and boundary tiles in the cover and the cover inside the bounding box for polygons, the tile itself for points, the union for collections, and MergeUp = MaxMerge on every repetition for tile sets at zoom 2 and 4. Also: polygons of up to 8x8 tiles with a small hole somewhere inside (a hole within one tile row), vertices repeated in a row incl. a doubled closing vertex, windows across the equator (the one tile-row edge with an exact latitude: vertices exactly on a row edge), windows starting at tile (0,0) and whole-world windows at zooms 0..2. Model-checked layer for lines: the grid walk of tilecover.line() transcribed in exact arithmetic satisfies Must <= walk <= May for every segment between lattice points of a 3x3 window. Also: multipolygons whose members overlap or nest (the cover is the union), tilecover.Bound on the 1/8192 lattice with corners a hair away from tile edges at zooms to 22, MergeUp on a reused map still holding false-valued keys of another zoom, points at zooms 0..2. Every third polygon cover follows covers that failed (an unclosed ring, alone and as a hole: uneven intersections), and every fourth judged shape is covered once more as a member of a collection (bare ring, polygon, multipolygon, next to points, lines and a nested collection) and compared with the union of the member covers.",
     level_note="Zero-length lines are outside the quantifier and accepted with any cover. The inverse mercator is written out in the harness (orb/internal cannot be imported) and guarded by the Fraction round-trip check; cases that miss are dropped, never judged. MergeUpPartial is not specified by the property and not checked. Trusted: TLC, Json module, the inverse projection + Fraction guard.",
     rule="one event = one real tilecover / MergeUp call; non-trivial = cover of more than one tile (lines, polygons) / all point, collection and merge events; distinct = distinct event text",
     assumptions=["edges are straight in tile space (the code interpolates in tile fractions)", "lattice points are reproduced by maptile.Fraction within 1e-6 tile (checked per point)"],
@@ -521,7 +521,7 @@ def run_c17(ctx):
 PLANS["C17"] = dict(
     run=run_c17, signature=sig_default,
     technique="TLA+ closed form of evenly spaced arclength positions in exact rational arithmetic and a transcription of the cumulative-distance walk; TLC checks walk = closed form and validates traces of real Resample/ToInterval calls on integer-length paths",
-    level_text="TLC checks that the transcription of the cumulative-distance walk (with its pinned last step) returns exactly N points equal to the closed form k*L/(N-1) for every axis-aligned path of <=3 (4) segments of length 0..3 (4) and N to 8 (12). Real calls are recorded for every path of <=3 (4) steps from a set of axis-aligned, Pythagorean and zero-length steps and N in -1..13, for seeded longer paths with N to 25, intervals d = dn/dd (incl. d <= 0, d > L, d | L), an L1 distance function on arbitrary integer paths, nil/empty/one-vertex/all-coincident lines; outputs are projected to the event's exact lattice 1/((N-1)*lcm lengths) and TLC requires equality with the closed form and the edge-case rules. For the great-circle distance functions TLC checks count, bit-identical endpoints and order. Two thirds of the input lines are the head of a longer buffer whose spare capacity holds foreign points.",
+    level_text="TLC checks that the transcription of the cumulative-distance walk (with its pinned last step) returns exactly N points equal to the closed form k*L/(N-1) for every axis-aligned path of <=3 (4) segments of length 0..3 (4) and N to 8 (12). Real calls are recorded for every path of <=3 (4) steps from a set of axis-aligned, Pythagorean and zero-length steps and N in -1..13, for seeded longer paths with N to 25, intervals d = dn/dd (incl. d <= 0, d > L, d | L), an L1 distance function on arbitrary integer paths, nil/empty/one-vertex/all-coincident lines; outputs are projected to the event's exact lattice 1/((N-1)*lcm lengths) and TLC requires equality with the closed form and the edge-case rules. For the great-circle distance functions TLC checks count, bit-identical endpoints and order. Two thirds of the input lines are the head of a longer buffer whose spare capacity holds foreign points. Every other call the line lives in one of two long-lived buffers that held other lines before; two-leg paths are also run sixty times larger (coordinate differences beyond 180 and 360).",
     level_note="Exact positions only for integer segment lengths (residual > 1e-7 lattice units = 'offlattice' event, rejected). For geo.Distance / DistanceHaversine only count, endpoints and order are judged. Trusted: TLC, Json module, lattice projection, rank interning.",
     rule="one event = one real Resample/ToInterval call; non-trivial = N >= 2 on a line of positive length; distinct = distinct event text",
     assumptions=["segment lengths are integers under the distance function used (by construction of the step set / L1 metric)"],
@@ -668,7 +668,7 @@ def run_c15(ctx):
 PLANS["C15"] = dict(
     run=run_c15, signature=sig_default,
     technique="TLA+ MapVertices law with a tagging point function, and contracts on integer observations for the numeric projections; TLC checks the law on the bounded shape set and validates traces of project.* and mvt ProjectToWGS84/ProjectToTile",
-    level_text="TLC checks on the 534-shape bounded set that MapVertices preserves kind and nesting and numbers the visited vertices 1..n in order. Seeded shapes of every kind (nested collections, bounds) are projected by project.Geometry and the typed helpers with a tagging function (k-th call returns <1000-x, k>: it reverses an axis); TLC requires the image to be exactly MapVertices of the input and the number of calls to be the number of vertices (a bound: the box of its two projected corners). Integer tile coordinates in [-extent, 2*extent) incl. all four borders, for random tiles at zooms 0..22, power-of-two and other extents, single layers and Layers values mixing extents, are projected to WGS84 and back: TLC requires the same integers. Lon/lat <-> mercator residuals on a grid and seeded points must stay under 1e-9 degree and 1 mm; anchors (180 deg = 20037508 m, clamps) must match. Half of the tile round trips run on Layer values that were projected before for another extent or another tile (holding other features at the time).",
+    level_text="TLC checks on the 534-shape bounded set that MapVertices preserves kind and nesting and numbers the visited vertices 1..n in order. Seeded shapes of every kind (nested collections, bounds) are projected by project.Geometry and the typed helpers with a tagging function (k-th call returns <1000-x, k>: it reverses an axis); TLC requires the image to be exactly MapVertices of the input and the number of calls to be the number of vertices (a bound: the box of its two projected corners). Integer tile coordinates in [-extent, 2*extent) incl. all four borders, for random tiles at zooms 0..22, power-of-two and other extents, single layers and Layers values mixing extents, are projected to WGS84 and back: TLC requires the same integers. Lon/lat <-> mercator residuals on a grid and seeded points must stay under 1e-9 degree and 1 mm; anchors (180 deg = 20037508 m, clamps) must match. Half of the tile round trips run on Layer values that were projected before for another extent or another tile (holding other features at the time). The twelve vertices of a tile round trip travel as a multipoint, a line, two lines, a polygon with a hole or two polygons, and a third of them start at the tile's own corner or edges (0,0), (0,y), (x,0).",
     level_note="exp / atan / log cannot be specified in TLA+: for the two real-valued inverses TLC only judges a recorded residual against the tolerance (a contract on the code's own output, not an independent oracle). Tile rows outside the mercator square (beyond the poles) are clamped by design and excluded. Trusted: TLC, Json module, integer rounding of observations.",
     rule="one event = one projected shape (in/out trees, call count), one layer's tile coordinates before/after the round trip, one residual observation or one anchor; all events non-trivial; distinct = distinct event text",
     assumptions=["tile coordinates are exact integers in float64"],
@@ -687,7 +687,7 @@ def run_c18(ctx):
 PLANS["C18"] = dict(
     run=run_c18, signature=sig_default,
     technique="TLA+ relations over integer observations of the spherical functions, rational-sine closed forms for box areas, and a model check of the ring-area index schedule; TLC validates traces of the real geo functions",
-    level_text="TLC model-checks the index schedule of geo.ringArea (lo/mi/hi rewiring with implicit closing) against the cyclic-triple sum for rings of 3..14 stored vertices, closed and unclosed. For seeded and gridded point pairs (incl. pairs straddling the antimeridian in both orders and close pairs below 80 degrees), bearings, distances to 5000 km, lines and rings of 3..12 integer-degree vertices, TLC requires: both distances symmetric bit for bit and at most half the circumference; fast vs haversine within 1e-5 under 10 km; PointAtBearingAndDistance landing within 1 mm of the requested haversine distance; the midpoint equidistant within 1 mm; Length = sum of segment distances; ring area unchanged (1e-6) by every rotation, the reversal (negated), explicit closing and by living in a shared coordinate buffer (which must not be written); SignedArea's sign = the winding computed from the integer coordinates; polygon = |outer| - sum |holes| for holes of either winding, multi = sum; and the area of every box whose parallels are 0, +-30, +-90 degrees = 710 011 km^2 x width x (sin top - sin bottom) in integer arithmetic.",
+    level_text="TLC model-checks the index schedule of geo.ringArea (lo/mi/hi rewiring with implicit closing) against the cyclic-triple sum for rings of 3..14 stored vertices, closed and unclosed. For seeded and gridded point pairs (incl. pairs straddling the antimeridian in both orders and close pairs below 80 degrees), bearings, distances to 5000 km, lines and rings of 3..12 integer-degree vertices, TLC requires: both distances symmetric bit for bit and at most half the circumference; fast vs haversine within 1e-5 under 10 km; PointAtBearingAndDistance landing within 1 mm of the requested haversine distance; the midpoint equidistant within 1 mm; Length = sum of segment distances; ring area unchanged (1e-6) by every rotation, the reversal (negated), explicit closing and by living in a shared coordinate buffer (which must not be written); SignedArea's sign = the winding computed from the integer coordinates; polygon = |outer| - sum |holes| for holes of either winding, multi = sum; and the area of every box whose parallels are 0, +-30, +-90 degrees = 710 011 km^2 x width x (sin top - sin bottom) in integer arithmetic. Length as the sum of segment distances is also required of rings (stored segments only), multi-lines, polygons and nested collections; the area of a collection = the sum over polygons, bare rings, boxes, nested collections and members without area.",
     level_note="Trigonometric closed forms at arbitrary latitudes cannot be written in TLA+: apart from the rational-sine boxes and the winding sign, the checks are relations between outputs of the code (a contract, not an independent oracle). Trusted: TLC, Json module, the fixed-point roundings in the harness.",
     rule="one event = one observation tuple (distance pair, bearing landing, midpoint, length, box, ring with its variants); all events non-trivial; distinct = distinct event text",
     assumptions=["float64 arithmetic error is far below the tolerances (1 mm, 1e-5, 1e-6 relative)"],
